@@ -17,7 +17,9 @@ from .c01 import supports_of, where_raised
 
 RENAMES = [{"A": "b", "B": "A", "C": "c10", "D": "Ä"}, {"A": "C", "B": "A", "C": "B", "D": "D"}, {"A": "zz", "B": "Z", "C": "a", "D": "_"},
            # names that are substrings / prefixes of one another (W1 in W10 in W100, W in all)
-           {"A": "W1", "B": "W10", "C": "W", "D": "W100"}, {"A": "Anna", "B": "Ann", "C": "Annabel", "D": "An"}]
+           {"A": "W1", "B": "W10", "C": "W", "D": "W100"}, {"A": "Anna", "B": "Ann", "C": "Annabel", "D": "An"},
+           # the leader keeps its name, the others trade places
+           {"A": "A", "B": "C", "C": "D", "D": "B"}, {"A": "A", "B": "C", "C": "B", "D": "D"}]
 UTILS = ("fpv", "borda", "mentions", "remove_cand", "pairwise")
 
 
@@ -355,6 +357,18 @@ def tasks(tier, seed):
             for rel in dict.fromkeys(use):
                 out.append(t(rule, m, opts, sup + ([sup[0]] if rel == "condense" else []), rel,
                              split=3 if rule in ("STV", "IRV", "SequentialRCV", "Alaska", "TopTwo") else 0))
+    # several candidates without a single first-place vote: the elimination order among them may only come from a
+    # recorded (random) tiebreak, never from set iteration order
+    zero_rules = [("STV", 2, o(True)), ("STV", 2, o(False)), ("SequentialRCV", 2, {"quota": "droop", "simultaneous": True, "tiebreak": None})]
+    for rule, m, opts in zero_rules:
+        for sup in ([F.fam("A")] if q else [F.fam("A"), F.fam("A", "A>B")]):
+            for rel in ("rename0", "rename6", "candorder", "rename3") if q else rels + ["rename3", "rename4", "rename5", "rename6"]:
+                out.append(t(rule, m, opts, sup, rel))
+    if not q:
+        for rule, m, opts in zero_rules + [("STV", 3, o(True)), ("IRV", 1, {"quota": "droop", "tiebreak": None})]:
+            for sup in (F.fam("A>B"), F.fam("A>B", "B>A"), F.fam("A", "B")):
+                for rel in ("rename0", "rename5", "rename6", "candorder", "candrot"):
+                    out.append(t(rule, m, opts, sup, rel, cands=C.K4))
     for rule, L, k in (("Rating", 1, None), ("Approval", None, None), ("Cumulative", None, None)):
         for rel in ("rename0", "reverse", "split", "candorder") if q else rels:
             out.append({"harness": "c08.meta", "params": {"rule": rule, "m": 1, "opts": {"L": L, "k": k, "tiebreak": None}, "cands": C.K3, "relation": rel, "score": True, "nb": 2},
@@ -369,6 +383,10 @@ def tasks(tier, seed):
             params = {"rule": rule, "m": m, "opts": opts, "family": sup, "cands": C.K3, "nmax": 6}
             out.append({"kind": "call", "module": "props.c08", "func": "run_seed_compare", "harness": "c08.seedcmp", "seeds": seeds,
                         "params": {"seeds": seeds[:2], "inner": params, **params}, "sig_keys": ["rule"], "name": f"hash seeds {seeds} {rule} m={m} {[C.shape_str(s) for s in sup]}", "weight": 8})
+    for rule, m, opts in zero_rules[:2]:
+        params = {"rule": rule, "m": m, "opts": opts, "family": F.fam("A"), "cands": C.K3, "nmax": 6}
+        out.append({"kind": "call", "module": "props.c08", "func": "run_seed_compare", "harness": "c08.seedcmp", "seeds": seeds,
+                    "params": {"seeds": seeds[:2], "inner": params, **params}, "sig_keys": ["rule"], "name": f"hash seeds {seeds} {rule} m={m} ['A']", "weight": 8})
     out.append(t("STV", 1, o(True), F.fam("A>B", "B>C", "C"), "reverse", canary="compare-with-different-seats", stop_on_violation=True, name="canary:compare-with-different-seats", xval_stride=0))
     return out
 
